@@ -93,10 +93,6 @@ def run_case(case):
                 for k in ('x', 'y'):
                     if isinstance(r[k], float):
                         r[k] = D(str(r[k]))
-        if op_ in ('avg', 'max', 'min', 'multiply'):
-            for r in rows:      # zero non-null values: undefined for these operations
-                if r['x'] is None and r['y'] is None:
-                    r['x'] = rows[0]['id'] + 1 if ftyp != 'string' else 'q'
         if op_ in ('max', 'min') and ftyp == 'mixed':
             pass
         spec = {'target': 'out', 'operation': op_, 'source': ['x', 'y']}
@@ -331,7 +327,7 @@ def run_case(case):
         # autoname: several sources whose automatic names coincide (files with the same base name in different
         # directories; sources(...) of several iterables, also after earlier resources) - with DIFFERENT schemas
         variant = rng.choice(['load_same_basename', 'load_same_file_twice', 'sources_iterables', 'sources_after_iterables',
-                              'sources_mixed'])
+                              'sources_mixed', 'load_package_same_name', 'load_tuple_same_name'])
         its = [[{'id': i, 'v%d' % j: 'x' * (j + 1)} for i in range(2 + j)] for j in range(4)]
 
         def csv_at(dirname, j):
@@ -340,7 +336,18 @@ def run_case(case):
             with open(path, 'w') as f:
                 f.write('id,w%d\n' % j + ''.join('%d,%s\n' % (i, 'abc'[j % 3]) for i in range(3 + j)))
             return path
-        if variant == 'load_same_basename':
+        if variant == 'load_package_same_name':
+            # a package saved by an earlier flow (its resource was auto-named res_1) is loaded after an iterable of this flow
+            with boot.quiet():
+                d.Flow([{'c': 1.5}, {'c': 2.5}], d.dump_to_path('saved')).process()
+            mk = lambda e: [copy.deepcopy(its[0]), d.load('saved/datapackage.json'), d.validate()]   # noqa: E731
+        elif variant == 'load_tuple_same_name':
+            desc_ = {'resources': [{'name': 'res_1', 'path': 'res_1.csv',
+                                    'schema': {'fields': [{'name': 'c', 'type': 'number'}]}}]}
+            mk = lambda e: [copy.deepcopy(its[0]),                                                 # noqa: E731
+                            d.load((copy.deepcopy(desc_), [iter([{'c': D('1.5')}, {'c': D('2.5')}])]), strip=False),
+                            d.validate()]
+        elif variant == 'load_same_basename':
             mk = lambda e: [d.load(csv_at('y2019', 0)), d.load(csv_at('y2020', 1)), d.validate()]   # noqa: E731
         elif variant == 'load_same_file_twice':
             mk = lambda e: [d.load(csv_at('y2019', 0)), d.load(csv_at('y2019', 0)), d.validate()]   # noqa: E731
